@@ -96,9 +96,13 @@ def all_jobs():
                       props=props, pretty='bloc::%s::value' % c, canaries=['normal', 'exceptional'], unwind=2,
                       unwind_why='Value::deref_value() pointer chase; tables hold no pointers (precondition), so one test of the loop condition is complete',
                       structs=DEFAULT_STRUCTS + [STD_STRING, VEC_CHAR, 'bloc::Collection', 'bloc::Tuple', 'bloc::Context']))
-    for n, c, props in (('builtin_chr', 'CHRExpression', ['C01', 'C02', 'C05', 'C10']),):
+    HASHFN = '_ZN4blocL17bloc_builtin_hashEjPKcj'
+    J.append(dict(id='builtin_hash_loop', src='blocc/builtin/builtin_hash.cpp', contract='builtin_hash.c', enforce=HASHFN, roots=[HASHFN], replace=[], cut=[RTE_CTOR, RTE_CTOR_S],
+                  props=['C01', 'C10'], pretty='bloc::bloc_builtin_hash', canaries=['normal'], defines=['HASH_LOOP_JOB', 'HASH_LEN_MAX=6'], unwind=8, bounded_inputs=True,
+                  unwind_why='DJB hash loop over the buffer: bounded to buffers of at most 6 bytes', structs=DEFAULT_STRUCTS + [STD_STRING, VEC_CHAR, 'bloc::Expression', 'bloc::Context']))
+    for n, c, props in (('builtin_chr', 'CHRExpression', ['C01', 'C02', 'C05', 'C10']), ('builtin_hash', 'HASHExpression', ['C01', 'C02', 'C05', 'C10'])):
         mg = '_ZNK4bloc%d%s5valueERNS_7ContextE' % (len(c), c)
-        J.append(dict(id=n, src='blocc/builtin/%s.cpp' % n, contract='%s.c' % n, enforce=mg, roots=[mg], replace=list(MEMB_REPLACE), cut=list(MEMB_CUT),
+        J.append(dict(id=n, src='blocc/builtin/%s.cpp' % n, contract='%s.c' % n, enforce=mg, roots=[mg], replace=list(MEMB_REPLACE) + ([HASHFN] if n == 'builtin_hash' else []), cut=list(MEMB_CUT) + ([HASHFN] if n == 'builtin_hash' else []),
                       props=props, pretty='bloc::%s::value' % c, canaries=['normal', 'exceptional'],
                       structs=DEFAULT_STRUCTS + [STD_STRING, VEC_CHAR, 'bloc::Context']))
     mg = '_ZNK4bloc12FORStatement4doitERNS_7ContextE'
